@@ -39,10 +39,42 @@ theorem matcherClause_spec (re : Bytes → Bytes → Bool) (field : String) (op 
 theorem fieldSem_val : fieldSem "val" = some (fun r _ => r.val) := by simp [fieldSem]
 theorem fieldSem_key : fieldSem "key" = some (fun r _ => r.key) := by simp [fieldSem]
 
-/-- every selector gets a clause, global or key/value according to its name, meaning `selHolds` -/
-theorem clauseOf_spec (re : Bytes → Bytes → Bool) (s : Selector) :
-    (isGlobal s = true ∧ ∃ c, clauseOf s = some (.inl c) ∧ ∀ r, c.eval re r = selHolds re s r) ∨
-    (isGlobal s = false ∧ ∃ c, clauseOf s = some (.inr c) ∧ ∀ r, c.eval re r = selHolds re s r) := by
+/-! ### selectors that accept the empty value -/
+theorem absentLabelP_inverse : Gen.ProfSelect.absentLabel = "inverse" := by decide
+
+def Op.inverse : Op → Op
+  | .eq => .ne | .ne => .eq | .re => .nre | .nre => .re
+
+/-- tie to `Gen.ProfSelect.inverseOps` (the switch of `inverseOp`) -/
+theorem invOp_eq (op : Op) : invOp op = some op.inverse := by cases op <;> decide
+
+theorem anchoredP_inverse (op : Op) :
+    Gen.ProfSelect.anchoredOps.contains op.inverse.str = Gen.ProfSelect.anchoredOps.contains op.str := by
+  cases op <;> decide
+
+theorem selVal_inverse (s : Selector) : selVal { s with op := s.op.inverse } = selVal s := by
+  obtain ⟨n, op, v⟩ := s
+  simp only [selVal, anchoredP_inverse]
+
+theorem acceptsEmptyP_eq (gre : Bytes → Bytes → Bool) (s : Selector) :
+    acceptsEmptyP gre s = opHoldsP gre s.op [] (selVal s) := by
+  simp [acceptsEmptyP, absentLabelP_inverse]
+
+/-- the selector the label index is asked for: the inverse of a key/value selector that accepts the empty value -/
+def askedP (gre : Bytes → Bytes → Bool) (s : Selector) : Selector :=
+  if acceptsEmptyP gre s then { s with op := s.op.inverse } else s
+
+theorem opHoldsP_inverse (re : Bytes → Bytes → Bool) (op : Op) (a b : Bytes) :
+    opHoldsP re op.inverse a b = !opHoldsP re op a b := by
+  cases op <;> simp [Op.inverse, opHoldsP, bne]
+
+/-- every selector gets a clause, global or key/value according to its name; a global clause means `selHolds`, a
+    key/value clause means `selHolds` of the selector asked (inverted when it accepts the empty value) and carries the
+    bit "a row is required" -/
+theorem clauseOf_spec (re gre : Bytes → Bytes → Bool) (s : Selector) :
+    (isGlobal s = true ∧ ∃ c, clauseOf gre s = some (.inl c) ∧ ∀ r, c.eval re r = selHolds re s r) ∨
+    (isGlobal s = false ∧ ∃ c, clauseOf gre s = some (.inr (c, !acceptsEmptyP gre s)) ∧
+      ∀ r, c.eval re r = (r.key == s.name && opHoldsP re (askedP gre s).op r.val (selVal s))) := by
   cases hp : pseudoOf s.name with
   | some p =>
     obtain ⟨field, inArr⟩ := p
@@ -60,46 +92,66 @@ theorem clauseOf_spec (re : Bytes → Bytes → Bool) (s : Selector) :
       cases fieldSem field <;> simp
   | none =>
     right
-    obtain ⟨c, hc, hce⟩ := matcherClause_spec re "val" s.op (selVal s)
-    refine ⟨by simp [isGlobal, hp], .and2 (.cmp (fnOf "Eq") "key" s.name) c, by simp [clauseOf, hp, hc], ?_⟩
-    intro r
-    simp only [PCond.eval, PCond.evalX, hce, selHolds, hp, fieldSem_val, fieldSem_key, fnOf_Eq, cmpBytes]
-    simp
+    refine ⟨by simp [isGlobal, hp], ?_⟩
+    cases hacc : acceptsEmptyP gre s with
+    | false =>
+      obtain ⟨c, hc, hce⟩ := matcherClause_spec re "val" s.op (selVal s)
+      refine ⟨.and2 (.cmp (fnOf "Eq") "key" s.name) c, by simp [clauseOf, hp, hc, hacc], ?_⟩
+      intro r
+      simp only [PCond.eval, PCond.evalX, hce, fieldSem_val, fieldSem_key, fnOf_Eq, cmpBytes, askedP, hacc]
+      simp
+    | true =>
+      obtain ⟨c, hc, hce⟩ := matcherClause_spec re "val" s.op.inverse (selVal s)
+      refine ⟨.and2 (.cmp (fnOf "Eq") "key" s.name) c, by simp [clauseOf, hp, hc, hacc, invOp_eq], ?_⟩
+      intro r
+      simp only [PCond.eval, PCond.evalX, hce, fieldSem_val, fieldSem_key, fnOf_Eq, cmpBytes, askedP, hacc]
+      simp
 
-theorem plan_spec (re : Bytes → Bytes → Bool) (table : String) (fromDate toDate : Bytes) (sels : List Selector) :
-    ∃ q, plan table fromDate toDate sels = some q ∧ q.table = table ∧ q.fromDate = fromDate ∧ q.toDate = toDate ∧
+/-- what the key/value clause of a selector asks of an index row -/
+def kvHolds (re gre : Bytes → Bytes → Bool) (s : Selector) (r : PRow) : Bool :=
+  r.key == s.name && opHoldsP re (askedP gre s).op r.val (selVal s)
+
+theorem plan_spec (re gre : Bytes → Bytes → Bool) (table : String) (fromDate toDate : Bytes) (sels : List Selector) :
+    ∃ q, plan gre table fromDate toDate sels = some q ∧ q.table = table ∧ q.fromDate = fromDate ∧ q.toDate = toDate ∧
       (∀ r, q.globals.map (·.eval re r) = (sels.filter isGlobal).map (selHolds re · r)) ∧
-      (∀ r, q.kvs.map (·.eval re r) = (sels.filter (fun s => !isGlobal s)).map (selHolds re · r)) := by
+      (∀ r, q.kvs.map (·.eval re r) = (sels.filter (fun s => !isGlobal s)).map (kvHolds re gre · r)) ∧
+      q.kvRequired = (sels.filter (fun s => !isGlobal s)).map (fun s => !acceptsEmptyP gre s) := by
   induction sels with
-  | nil => exact ⟨_, rfl, rfl, rfl, rfl, fun _ => rfl, fun _ => rfl⟩
+  | nil => exact ⟨_, rfl, rfl, rfl, rfl, fun _ => rfl, fun _ => rfl, rfl⟩
   | cons s ss ih =>
-    obtain ⟨q, hq, h1, h2, h3, hg, hk⟩ := ih
-    rcases clauseOf_spec re s with ⟨hgl, c, hc, hce⟩ | ⟨hgl, c, hc, hce⟩
-    · refine ⟨{ q with globals := c :: q.globals }, by simp [plan, hc, hq], h1, h2, h3, ?_, ?_⟩
+    obtain ⟨q, hq, h1, h2, h3, hg, hk, hr⟩ := ih
+    rcases clauseOf_spec re gre s with ⟨hgl, c, hc, hce⟩ | ⟨hgl, c, hc, hce⟩
+    · refine ⟨{ q with globals := c :: q.globals }, by simp [plan, hc, hq], h1, h2, h3, ?_, ?_, ?_⟩
       · intro r; simp [hgl, hce r, hg r]
       · intro r; simp [hgl, hk r]
-    · refine ⟨{ q with kvs := c :: q.kvs }, by simp [plan, hc, hq], h1, h2, h3, ?_, ?_⟩
+      · simp [hgl, hr]
+    · refine ⟨{ q with kvs := c :: q.kvs, kvRequired := (!acceptsEmptyP gre s) :: q.kvRequired },
+        by simp [plan, hc, hq], h1, h2, h3, ?_, ?_, ?_⟩
       · intro r; simp [hgl, hg r]
-      · intro r; simp [hgl, hce r, hk r]
+      · intro r; simp [hgl, hce r, hk r, kvHolds]
+      · simp [hgl, hr]
 
-/-- the direct reading of a selector list over the index rows -/
-def Selected (re : Bytes → Bytes → Bool) (fromDate toDate : Bytes) (sels : List Selector)
+/-- the direct reading of a selector list over the index rows: a row inside the date range on which every pseudo-label
+    selector holds; for every key/value selector that rejects the empty value such a row satisfying it; for every
+    key/value selector that accepts the empty value no such row carrying its label that violates it -/
+def Selected (re gre : Bytes → Bytes → Bool) (fromDate toDate : Bytes) (sels : List Selector)
     (tbl : List PRow) (f : Nat) : Prop :=
   let gs := sels.filter isGlobal
   let ks := sels.filter (fun s => !isGlobal s)
-  (∃ r ∈ tbl, r.fp = f ∧ dateOk fromDate toDate r = true ∧ (∀ g ∈ gs, selHolds re g r = true) ∧
-      (ks = [] ∨ ∃ k ∈ ks, selHolds re k r = true)) ∧
-  ∀ k ∈ ks, ∃ r ∈ tbl, r.fp = f ∧ dateOk fromDate toDate r = true ∧ (∀ g ∈ gs, selHolds re g r = true) ∧
-      selHolds re k r = true
+  let ok (r : PRow) : Prop := r.fp = f ∧ dateOk fromDate toDate r = true ∧ (∀ g ∈ gs, selHolds re g r = true)
+  (∃ r ∈ tbl, ok r) ∧
+  (∀ k ∈ ks, acceptsEmptyP gre k = false → ∃ r ∈ tbl, ok r ∧ selHolds re k r = true) ∧
+  (∀ k ∈ ks, acceptsEmptyP gre k = true → ∀ r ∈ tbl, ok r → r.key = k.name → opHoldsP re k.op r.val (selVal k) = true)
 
-theorem plan_correct (re : Bytes → Bytes → Bool) (W : Nat) (table : String) (fromDate toDate : Bytes)
+theorem plan_correct (re gre : Bytes → Bytes → Bool) (W : Nat) (table : String) (fromDate toDate : Bytes)
     (sels : List Selector) (hW : (sels.filter (fun s => !isGlobal s)).length ≤ W)
     (h63 : (sels.filter (fun s => !isGlobal s)).length ≤ 63) (tbl : List PRow) (f : Nat) :
-    ∃ q, plan table fromDate toDate sels = some q ∧
-      (f ∈ q.eval re W tbl ↔ Selected re fromDate toDate sels tbl f) := by
-  obtain ⟨q, hq, _, h2, h3, hg, hk⟩ := plan_spec re table fromDate toDate sels
+    ∃ q, plan gre table fromDate toDate sels = some q ∧
+      (f ∈ q.eval re W tbl ↔ Selected re gre fromDate toDate sels tbl f) := by
+  obtain ⟨q, hq, _, h2, h3, hg, hk, hreq⟩ := plan_spec re gre table fromDate toDate sels
   refine ⟨q, hq, ?_⟩
-  have hklen : q.kvs.length = (sels.filter (fun s => !isGlobal s)).length := by
+  generalize hks : sels.filter (fun s => !isGlobal s) = ks at hW h63 hk hreq
+  have hklen : q.kvs.length = ks.length := by
     have := congrArg List.length (hk ⟨[], [], [], [], [], [], 0⟩)
     simpa using this
   have hadm : ∀ r, q.rowOk re r = true ↔
@@ -111,64 +163,277 @@ theorem plan_correct (re : Bytes → Bytes → Bool) (W : Nat) (table : String) 
     have e1 : cmpBytes ">=" r.date fromDate = bytesLe fromDate r.date := by simp [cmpBytes]
     have e2 : cmpBytes "<=" r.date toDate = bytesLe r.date toDate := by simp [cmpBytes]
     simp only [PQuery.rowOk, hall, fnOf_Ge, fnOf_Le, h2, h3, e1, e2, dateOk, Bool.and_eq_true, List.all_eq_true]
+  have hselkv : ∀ k ∈ ks, ∀ r, selHolds re k r = (r.key == k.name && opHoldsP re k.op r.val (selVal k)) := by
+    intro k hkm r
+    have : isGlobal k = false := by
+      have := (List.mem_filter.mp (hks ▸ hkm)).2
+      simpa using this
+    have hp : pseudoOf k.name = none := by
+      cases hp : pseudoOf k.name with
+      | none => rfl
+      | some p => simp [isGlobal, hp] at this
+    simp [selHolds, hp]
   unfold PQuery.eval Selected
+  rw [hks]
   by_cases hemp : q.kvs.isEmpty = true
-  · have hks : sels.filter (fun s => !isGlobal s) = [] := by
+  · have hks0 : ks = [] := List.eq_nil_of_length_eq_zero (by
       have : q.kvs.length = 0 := by simpa using hemp
-      exact List.eq_nil_of_length_eq_zero (by omega)
+      omega)
     simp only [hemp, if_true, List.mem_eraseDups, List.mem_map]
-    rw [hks]
+    subst hks0
     constructor
     · rintro ⟨r, hr, hf⟩
       obtain ⟨hr, ha⟩ := List.mem_filter.mp hr
-      exact ⟨⟨r, hr, hf, ((hadm r).mp ha).1, ((hadm r).mp ha).2, Or.inl rfl⟩, by intro k hk'; cases hk'⟩
-    · rintro ⟨⟨r, hr, hf, hd, hgl, _⟩, _⟩
+      exact ⟨⟨r, hr, hf, ((hadm r).mp ha).1, ((hadm r).mp ha).2⟩,
+        (fun k hk' => absurd hk' List.not_mem_nil), (fun k hk' => absurd hk' List.not_mem_nil)⟩
+    · rintro ⟨⟨r, hr, hf, hd, hgl⟩, _⟩
       exact ⟨r, List.mem_filter.mpr ⟨hr, (hadm r).mpr ⟨hd, hgl⟩⟩, hf⟩
-  · have h63' : q.kvs.length ≤ 63 := by omega
-    have hemp' : q.kvs.isEmpty = false := by simpa using hemp
-    simp only [hemp', h63', ↓reduceIte, Bool.false_eq_true]
-    rw [mem_bitsetSelect W _ _ _ tbl (by simpa [hklen] using hW) f]
-    have hcond : ∀ (i : Nat) (hi : i < (q.kvs.map (fun (c : PCond) (r : PRow) => c.eval re r)).length) (r : PRow),
-        ∃ hi' : i < (sels.filter (fun s => !isGlobal s)).length,
-          (q.kvs.map (fun (c : PCond) (r : PRow) => c.eval re r))[i] r = selHolds re (sels.filter (fun s => !isGlobal s))[i] r := by
-      intro i hi r
-      have hi' : i < (sels.filter (fun s => !isGlobal s)).length := by simpa [hklen] using hi
-      refine ⟨hi', ?_⟩
+  · have hemp' : q.kvs.isEmpty = false := by simpa using hemp
+    simp only [hemp', Bool.false_eq_true, if_false]
+    have hreq63 : q.kvRequired.length ≤ 63 := by rw [hreq]; simpa using h63
+    rw [mem_bitsetSelectGen W _ _ q.kvRequired _ _ _ tbl (by simpa [hklen] using hW)
+      (by rw [hreq]; simp [hklen]) (by
+        simp only [PQuery.useOr, requiredConst_eq _ hreq63]
+        cases h : q.kvRequired.any id with
+        | false =>
+          have := (bits_eq_zero _).mpr h
+          simp [this]
+        | true =>
+          have : bits q.kvRequired ≠ 0 := by
+            intro h0; rw [(bits_eq_zero _).mp h0] at h; cases h
+          simp only [bne_iff_ne, ne_eq]
+          omega) (by
+        intro x
+        simp only [requiredConst_eq _ hreq63]
+        cases hx : x == bits q.kvRequired with
+        | true => have := eq_of_beq hx; subst this; simp
+        | false =>
+          have : x ≠ bits q.kvRequired := ne_of_beq_false hx
+          simp only [beq_eq_false_iff_ne, ne_eq]
+          omega) f]
+    have hcond : ∀ (i : Nat) (hi : i < ks.length) (hi' : i < (q.kvs.map (fun (c : PCond) (r : PRow) => c.eval re r)).length) (r : PRow),
+        (q.kvs.map (fun (c : PCond) (r : PRow) => c.eval re r))[i] r = kvHolds re gre ks[i] r := by
+      intro i hi hi' r
       have := congrArg (fun l => l[i]?) (hk r)
-      simp only [List.getElem?_map] at this
-      have hi'' : i < q.kvs.length := by simpa using hi
-      simp only [List.getElem?_eq_getElem hi'', List.getElem?_eq_getElem hi', Option.map_some] at this
+      have hic : i < q.kvs.length := by omega
+      simp only [List.getElem?_map, List.getElem?_eq_getElem hic, List.getElem?_eq_getElem hi, Option.map_some] at this
       simpa using this
-    have hks_ne : sels.filter (fun s => !isGlobal s) ≠ [] := by
-      intro h
-      have : q.kvs.length = 0 := by rw [hklen, h]; rfl
-      exact hemp (by simpa using this)
+    have hreqi : ∀ (i : Nat) (hi : i < ks.length), q.kvRequired.getD i false = !acceptsEmptyP gre ks[i] := by
+      intro i hi
+      rw [hreq]
+      simp [List.getD, List.getElem?_map, List.getElem?_eq_getElem hi]
+    have hokiff : ∀ r, (r.fp = f ∧ q.rowOk re r = true) ↔
+        (r.fp = f ∧ dateOk fromDate toDate r = true ∧ ∀ g ∈ sels.filter isGlobal, selHolds re g r = true) := by
+      intro r; rw [hadm r]
     constructor
-    · rintro ⟨⟨r, hr, hf, ha, c, hc, hcr⟩, hall⟩
-      refine ⟨⟨r, hr, hf, ((hadm r).mp ha).1, ((hadm r).mp ha).2, Or.inr ?_⟩, ?_⟩
-      · obtain ⟨i, hi, rfl⟩ := List.getElem_of_mem hc
-        obtain ⟨hi', he⟩ := hcond i hi r
-        exact ⟨_, List.getElem_mem hi', by rw [← he]; exact hcr⟩
-      · intro k hk'
-        obtain ⟨i, hi', rfl⟩ := List.getElem_of_mem hk'
-        have hi : i < (q.kvs.map (fun (c : PCond) (r : PRow) => c.eval re r)).length := by simpa [hklen] using hi'
-        obtain ⟨r', hr', hf', ha', hcr'⟩ := hall i hi
-        obtain ⟨_, he⟩ := hcond i hi r'
-        exact ⟨r', hr', hf', ((hadm r').mp ha').1, ((hadm r').mp ha').2, by rw [← he]; exact hcr'⟩
-    · rintro ⟨⟨r, hr, hf, hd, hgl, hor⟩, hall⟩
-      have hrows : ∀ i, (hi : i < (q.kvs.map (fun (c : PCond) (r : PRow) => c.eval re r)).length) → ∃ r ∈ tbl, r.fp = f ∧
-          q.rowOk re r = true ∧ (q.kvs.map (fun (c : PCond) (r : PRow) => c.eval re r))[i] r = true := by
-        intro i hi
-        have hi' : i < (sels.filter (fun s => !isGlobal s)).length := by simpa [hklen] using hi
-        obtain ⟨r', hr', hf', hd', hgl', hs'⟩ := hall _ (List.getElem_mem hi')
-        obtain ⟨_, he⟩ := hcond i hi r'
-        exact ⟨r', hr', hf', (hadm r').mpr ⟨hd', hgl'⟩, by rw [he]; exact hs'⟩
-      refine ⟨?_, hrows⟩
-      rcases hor with h | ⟨k, hk', hkr⟩
-      · exact absurd h hks_ne
-      · obtain ⟨i, hi', rfl⟩ := List.getElem_of_mem hk'
-        have hi : i < (q.kvs.map (fun (c : PCond) (r : PRow) => c.eval re r)).length := by simpa [hklen] using hi'
-        obtain ⟨_, he⟩ := hcond i hi r
-        exact ⟨r, hr, hf, (hadm r).mpr ⟨hd, hgl⟩, _, List.getElem_mem hi, by rw [he]; exact hkr⟩
+    · rintro ⟨⟨r, hr, hf, ha⟩, hall⟩
+      refine ⟨⟨r, hr, hf, ((hadm r).mp ha).1, ((hadm r).mp ha).2⟩, ?_, ?_⟩
+      · intro k hkm hacc
+        obtain ⟨i, hi, rfl⟩ := List.getElem_of_mem hkm
+        have hi' : i < (q.kvs.map (fun (c : PCond) (r : PRow) => c.eval re r)).length := by simp; omega
+        obtain ⟨r', hr', hf', ha', hc⟩ := (hall i hi').mpr (by rw [hreqi i hi, hacc]; rfl)
+        rw [hcond i hi hi' r'] at hc
+        simp only [kvHolds, askedP, hacc] at hc
+        exact ⟨r', hr', ⟨hf', ((hadm r').mp ha').1, ((hadm r').mp ha').2⟩, by rw [hselkv _ hkm]; exact hc⟩
+      · intro k hkm hacc r' hr' hok hkey
+        obtain ⟨i, hi, rfl⟩ := List.getElem_of_mem hkm
+        have hi' : i < (q.kvs.map (fun (c : PCond) (r : PRow) => c.eval re r)).length := by simp; omega
+        have hno := hall i hi'
+        rw [hreqi i hi, hacc] at hno
+        cases hop : opHoldsP re ks[i].op r'.val (selVal ks[i]) with
+        | true => rfl
+        | false =>
+          exfalso
+          have : (false = true) := hno.mp ⟨r', hr', hok.1, (hadm r').mpr ⟨hok.2.1, hok.2.2⟩, by
+            rw [hcond i hi hi' r']
+            simp only [kvHolds, askedP, hacc, if_true, opHoldsP_inverse, hop, hkey]
+            simp⟩
+          cases this
+    · rintro ⟨⟨r, hr, hf, hd, hgl⟩, hpos, hneg⟩
+      refine ⟨⟨r, hr, hf, (hadm r).mpr ⟨hd, hgl⟩⟩, ?_⟩
+      intro i hi'
+      have hi : i < ks.length := by simp at hi'; omega
+      rw [hreqi i hi]
+      cases hacc : acceptsEmptyP gre ks[i] with
+      | false =>
+        obtain ⟨r', hr', hok, hc⟩ := hpos ks[i] (List.getElem_mem hi) hacc
+        simp only [Bool.not_false, iff_true]
+        refine ⟨r', hr', hok.1, (hadm r').mpr ⟨hok.2.1, hok.2.2⟩, ?_⟩
+        rw [hcond i hi hi' r']
+        rw [hselkv _ (List.getElem_mem hi)] at hc
+        simp only [kvHolds, askedP, hacc]
+        exact hc
+      | true =>
+        simp only [Bool.not_true, Bool.false_eq_true, iff_false]
+        rintro ⟨r', hr', hf', ha', hc⟩
+        rw [hcond i hi hi' r'] at hc
+        simp only [kvHolds, askedP, hacc, if_true, opHoldsP_inverse, Bool.and_eq_true, beq_iff_eq, Bool.not_eq_true'] at hc
+        have := hneg ks[i] (List.getElem_mem hi) hacc r' hr' ⟨hf', ((hadm r').mp ha').1, ((hadm r').mp ha').2⟩ hc.1
+        rw [this] at hc
+        cases hc.2
+
+/-! ### from index rows to the label sets of profile series -/
+
+/-- a stored profile series: per label one row of `profiles_series_gin`, each carrying the series columns -/
+structure PStored where
+  fp : Nat
+  labels : List (Bytes × Bytes)
+  date : Bytes
+  typeId : Bytes
+  serviceName : Bytes
+  stu : List (Bytes × Bytes)
+
+def PStored.row (s : PStored) (kv : Bytes × Bytes) : PRow := ⟨s.date, kv.1, kv.2, s.typeId, s.serviceName, s.stu, s.fp⟩
+
+def pIndexRows (db : List PStored) : List PRow := db.flatMap (fun s => s.labels.map s.row)
+
+theorem mem_pIndexRows {db : List PStored} {r : PRow} :
+    r ∈ pIndexRows db ↔ ∃ s ∈ db, ∃ kv ∈ s.labels, r = s.row kv := by
+  simp only [pIndexRows, List.mem_flatMap, List.mem_map]
+  constructor
+  · rintro ⟨s, hs, kv, hkv, rfl⟩; exact ⟨s, hs, kv, hkv, rfl⟩
+  · rintro ⟨s, hs, kv, hkv, rfl⟩; exact ⟨s, hs, kv, hkv, rfl⟩
+
+/-- fingerprints identify series, label names are unique inside a series, every series has a label (a series without
+    any label has no index row at all) -/
+structure PWellFormed (db : List PStored) : Prop where
+  fps : (db.map (·.fp)).Nodup
+  names : ∀ s ∈ db, (s.labels.map (·.1)).Nodup
+  labelled : ∀ s ∈ db, s.labels ≠ []
+
+theorem eq_of_fpP {db : List PStored} (hnd : (db.map (·.fp)).Nodup) {s s' : PStored} (h : s ∈ db)
+    (h' : s' ∈ db) (e : s.fp = s'.fp) : s = s' := by
+  induction db with
+  | nil => cases h
+  | cons a db ih =>
+    simp only [List.map_cons, List.nodup_cons] at hnd
+    rcases List.mem_cons.mp h with rfl | hm <;> rcases List.mem_cons.mp h' with rfl | hm'
+    · rfl
+    · exact absurd (List.mem_map.mpr ⟨s', hm', e.symm⟩) hnd.1
+    · exact absurd (List.mem_map.mpr ⟨s, hm, e⟩) hnd.1
+    · exact ih hnd.2 hm hm'
+
+theorem pseudoFields : Gen.ProfSelect.pseudoLabels.map (fun e => e.2.1) =
+    ["splitByChar(':', type_id)[1]", "splitByChar(':', type_id)[2]", "splitByChar(':', type_id)[3]", "x.1", "x.2",
+     "format('{}:{}:{}:{}:{}', (splitByChar(':', type_id) as _parts)[1], x.1, x.2, _parts[2], _parts[3])",
+     "service_name"] := by decide
+
+theorem lookup_mem_snd {β} (k : String) : ∀ (l : List (String × β)) (v : β), l.lookup k = some v → v ∈ l.map (·.2)
+  | [], _, h => by simp [List.lookup] at h
+  | (a, b) :: l, v, h => by
+    simp only [List.lookup] at h
+    by_cases hk : k == a
+    · simp only [hk] at h
+      simp at h; subst h; simp
+    · simp only [hk] at h
+      simp only [List.map_cons, List.mem_cons]
+      exact Or.inr (lookup_mem_snd k l v h)
+
+/-- a pseudo-label selector reads columns every index row of the series carries: it does not depend on the (key, val) -/
+theorem selHolds_global_row (re : Bytes → Bytes → Bool) (g : Selector) (hg : isGlobal g = true) (s : PStored)
+    (kv kv' : Bytes × Bytes) : selHolds re g (s.row kv) = selHolds re g (s.row kv') := by
+  cases hp : pseudoOf g.name with
+  | none => simp [isGlobal, hp] at hg
+  | some p =>
+    obtain ⟨field, inArr⟩ := p
+    have hmem : field ∈ Gen.ProfSelect.pseudoLabels.map (fun e => e.2.1) := by
+      have := lookup_mem_snd _ _ _ hp
+      obtain ⟨e, he, h2⟩ := List.mem_map.mp this
+      exact List.mem_map.mpr ⟨e, he, by rw [h2]⟩
+    rw [pseudoFields] at hmem
+    simp only [List.mem_cons, List.not_mem_nil, or_false] at hmem
+    rcases hmem with rfl | rfl | rfl | rfl | rfl | rfl | rfl <;>
+      simp [selHolds, hp, fieldSem, PStored.row, typePart]
+
+def dateOkS (fromDate toDate : Bytes) (s : PStored) : Bool := bytesLe fromDate s.date && bytesLe s.date toDate
+
+/-- Pyroscope's reading of a selector list on a stored profile series: every pseudo-label selector holds on the series
+    columns, every key/value selector on the value of its label — the empty value when the series does not have it -/
+def profMatches (re : Bytes → Bytes → Bool) (sels : List Selector) (s : PStored) : Prop :=
+  (∀ g ∈ sels.filter isGlobal, selHolds re g (s.row ([], [])) = true) ∧
+  ∀ k ∈ sels.filter (fun s => !isGlobal s), opHoldsP re k.op (labelValue s.labels k.name) (selVal k) = true
+
+theorem selected_iff_labels (re gre : Bytes → Bytes → Bool) (hemp : ∀ p, gre p [] = re p [])
+    (fromDate toDate : Bytes) (sels : List Selector) (db : List PStored) (wf : PWellFormed db) (f : Nat) :
+    Selected re gre fromDate toDate sels (pIndexRows db) f ↔
+      ∃ s ∈ db, s.fp = f ∧ dateOkS fromDate toDate s = true ∧ profMatches re sels s := by
+  have hacc : ∀ k : Selector, acceptsEmptyP gre k = opHoldsP re k.op [] (selVal k) := by
+    intro k
+    rw [acceptsEmptyP_eq]
+    cases k.op <;> simp [opHoldsP, hemp]
+  have hkv : ∀ k ∈ sels.filter (fun s => !isGlobal s), ∀ r, selHolds re k r = (r.key == k.name && opHoldsP re k.op r.val (selVal k)) := by
+    intro k hkm r
+    have : isGlobal k = false := by simpa using (List.mem_filter.mp hkm).2
+    have hp : pseudoOf k.name = none := by
+      cases hp : pseudoOf k.name with
+      | none => rfl
+      | some p => simp [isGlobal, hp] at this
+    simp [selHolds, hp]
+  have hglob : ∀ (s : PStored) (kv : Bytes × Bytes), (∀ g ∈ sels.filter isGlobal, selHolds re g (s.row kv) = true) ↔
+      (∀ g ∈ sels.filter isGlobal, selHolds re g (s.row ([], [])) = true) := by
+    intro s kv
+    constructor <;> intro h g hgm
+    · rw [selHolds_global_row re g (List.mem_filter.mp hgm).2 s ([], []) kv]; exact h g hgm
+    · rw [selHolds_global_row re g (List.mem_filter.mp hgm).2 s kv ([], [])]; exact h g hgm
+  unfold Selected profMatches
+  constructor
+  · rintro ⟨⟨r, hr, hf, hd, hgl⟩, hpos, hneg⟩
+    obtain ⟨s, hs, kv, hkvm, rfl⟩ := mem_pIndexRows.mp hr
+    refine ⟨s, hs, hf, by simpa [dateOk, dateOkS, PStored.row] using hd, (hglob s kv).mp hgl, ?_⟩
+    intro k hkm
+    cases ha : acceptsEmptyP gre k with
+    | false =>
+      obtain ⟨r', hr', ⟨hf', _, _⟩, hsat⟩ := hpos k hkm ha
+      obtain ⟨s', hs', kv', hkv', rfl⟩ := mem_pIndexRows.mp hr'
+      have : s' = s := eq_of_fpP wf.fps hs' hs (by simp only [PStored.row] at hf hf'; omega)
+      subst this
+      rw [hkv k hkm] at hsat
+      simp only [PStored.row, Bool.and_eq_true, beq_iff_eq] at hsat
+      have hl : s'.labels.lookup k.name = some kv'.2 := by
+        apply lookup_of_mem (wf.names s' hs')
+        rw [← hsat.1]; exact hkv'
+      simpa [labelValue, hl] using hsat.2
+    | true =>
+      cases hl : s.labels.lookup k.name with
+      | none =>
+        simp only [labelValue, hl, Option.getD_none]
+        rw [← hacc]; exact ha
+      | some v =>
+        simp only [labelValue, hl, Option.getD_some]
+        have hmem : (k.name, v) ∈ s.labels := mem_of_lookup hl
+        exact hneg k hkm ha (s.row (k.name, v)) (mem_pIndexRows.mpr ⟨s, hs, _, hmem, rfl⟩)
+          ⟨hf, by simpa [dateOk, PStored.row] using hd, (hglob s _).mpr ((hglob s kv).mp hgl)⟩ rfl
+  · rintro ⟨s, hs, hf, hd, hgl, hkvs⟩
+    have hok : ∀ kv : Bytes × Bytes, (s.row kv).fp = f ∧ dateOk fromDate toDate (s.row kv) = true ∧
+        ∀ g ∈ sels.filter isGlobal, selHolds re g (s.row kv) = true := by
+      intro kv
+      exact ⟨hf, by simpa [dateOk, dateOkS, PStored.row] using hd, (hglob s kv).mpr hgl⟩
+    refine ⟨?_, ?_, ?_⟩
+    · cases hls : s.labels with
+      | nil => exact absurd hls (wf.labelled s hs)
+      | cons kv rest =>
+        exact ⟨s.row kv, mem_pIndexRows.mpr ⟨s, hs, kv, by rw [hls]; exact List.mem_cons_self, rfl⟩, hok kv⟩
+    · intro k hkm ha
+      have hop := hkvs k hkm
+      cases hl : s.labels.lookup k.name with
+      | none =>
+        simp only [labelValue, hl, Option.getD_none] at hop
+        rw [← hacc, ha] at hop; cases hop
+      | some v =>
+        simp only [labelValue, hl, Option.getD_some] at hop
+        refine ⟨s.row (k.name, v), mem_pIndexRows.mpr ⟨s, hs, _, mem_of_lookup hl, rfl⟩, hok _, ?_⟩
+        rw [hkv k hkm]
+        simp [PStored.row, hop]
+    · intro k hkm _ r hr hokr hkey
+      obtain ⟨s', hs', kv', hkv', rfl⟩ := mem_pIndexRows.mp hr
+      have : s' = s := eq_of_fpP wf.fps hs' hs (by have := hokr.1; simp only [PStored.row] at this hf; omega)
+      subst this
+      have hl : s'.labels.lookup k.name = some kv'.2 := by
+        apply lookup_of_mem (wf.names s' hs')
+        simp only [PStored.row] at hkey
+        rw [← hkey]; exact hkv'
+      have hop := hkvs k hkm
+      simp only [labelValue, hl, Option.getD_some] at hop
+      exact hop
 
 end Qryn.Prof
